@@ -418,6 +418,19 @@ def go_grid(rng, n_random):
     return lines
 
 
+def slice_proof(run, code_follows_formula):
+    """SliceProof.tla: the transcribed formula meets the contract for every integer clock / increment (Apalache, unbounded);
+    the pinned commit's formula does not.  Says something about the code only as far as the recorded slices equal the formula."""
+    t0 = time.time()
+    ok = vcommon.apalache("SliceProof", ["--cinit=CInit", "--inv=Contract", "--length=0"], timeout=600)
+    pinned = vcommon.apalache("SliceProof", ["--cinit=CInitPinned", "--inv=Contract", "--length=0"], timeout=600)
+    if ok != "NoError" or pinned != "Error":
+        raise ToolError("SliceProof.tla: transcribed formula %s, pinned variant %s (expected NoError / Error)" % (ok, pinned))
+    run.cov["unbounded_formula_argument"] = {"module": "SliceProof.tla (Apalache, clock and increment over all integers, movestogo 1..100000)",
+                                             "transcribed_formula_meets_contract": True, "pinned_formula_meets_contract": False,
+                                             "applies_to_this_tree": bool(code_follows_formula), "wall_s": round(time.time() - t0, 1)}
+
+
 def big_slices(run, h, rng, n):
     """Clocks beyond TLC's 32-bit integers (2^31 .. 2^40 ms): the engine's parse + slice on generated go lines, the contract
     checked by Apalache (unbounded integers) on a generated module of literal events."""
@@ -507,21 +520,25 @@ def c09(tier, replay):
     os.remove(os.path.join(d, "all.ndjson"))
     paths = sorted(glob.glob(os.path.join(d, "uci*.ndjson")))
     results = vcommon.validate_shards("TraceUci", "TraceUci.cfg", paths, env_extra={"OVERHEAD": str(OVERHEAD_MS)})
-    nsl = 0
+    nsl = same = other = 0
     for r in results:
         run.add("states", r["distinct"])
         run.add("transitions", max(r["states"] - 1, 0))
         nsl += r["verdict"]["cnt"]["slices"]
+        same += r["verdict"]["cnt"]["formula_same"]
+        other += r["verdict"]["cnt"]["formula_other"]
         for prop, line, code, detail in r["verdict"]["bad"]:
             if prop == "C09":
                 e = vcommon.read_event(r["file"], line)
                 run.violation("%s:%s" % (code, e["line"].replace(" ", "_")), "%s: %s" % (code, detail), {"type": "slice", "line": e["line"]})
     run.cov["slice_events"] = nsl
+    run.cov["slices_equal_to_transcribed_formula"] = {"equal": same, "different": other}
     run.sample({"go": evs[0]["line"], "slice_white": evs[0].get("slice_w"), "slice_black": evs[0].get("slice_b")})
     shutil.rmtree(d, ignore_errors=True)
     if replay:
         return run.finish()
     big_slices(run, h, rng, 150 if q else 600)
+    slice_proof(run, other == 0)
     # timed part: the real delay against the plan (the colour decides which clock counts)
     binary = vcommon.build_binary(False)
     live, _ = pool(h, vcommon.seed() + 2, 6, 2, 0, 6)
